@@ -465,6 +465,9 @@ func (t *Tracer) walkLoad(u *ssa.UnOp, seen map[ssa.Value]bool, out map[string]R
 	case *ssa.FieldAddr:
 		if cell := CellOf(a.X); cell != nil {
 			sts := fieldCellStores(cell, a.Field)
+			if live, ok := liveFieldStores(cell, a.Field, u); ok {
+				sts = live
+			}
 			if len(sts) == 0 {
 				add(out, "const", "zero-value", u)
 			}
@@ -512,6 +515,9 @@ func (t *Tracer) walkStructField(sv ssa.Value, field int, seen map[ssa.Value]boo
 		if s.Op == token.MUL {
 			if cell := CellOf(s.X); cell != nil {
 				sts := fieldCellStores(cell, field)
+				if live, ok := liveFieldStores(cell, field, s); ok {
+					sts = live
+				}
 				if len(sts) == 0 {
 					add(out, "const", "zero-value", sv)
 				}
@@ -647,10 +653,52 @@ func FieldIndex(t types.Type, name string) int {
 // callee), returns the values stored to that field through the same pointer
 // in the loading function plus the callee's initialising stores.
 func (t *Tracer) freshObjectStores(fa *ssa.FieldAddr) ([]ssa.Value, bool) {
+	// the pointer is a parameter that every caller fills with a fresh object of
+	// its own: the field holds what the constructor and that caller stored
+	if p, isP := fa.X.(*ssa.Parameter); isP && t.CG != nil {
+		fn := p.Parent()
+		idx := -1
+		for i, q := range fn.Params {
+			if q == p {
+				idx = i
+			}
+		}
+		node := t.CG.Nodes[fn]
+		if node == nil || idx < 0 || len(node.In) == 0 {
+			return nil, false
+		}
+		var vals []ssa.Value
+		for _, e := range node.In {
+			if e.Site == nil || e.Site.Common().IsInvoke() || e.Site.Common().StaticCallee() != fn || idx >= len(e.Site.Common().Args) {
+				return nil, false
+			}
+			call, ok := e.Site.Common().Args[idx].(*ssa.Call)
+			if !ok {
+				return nil, false
+			}
+			vs, ok := t.freshObjectFieldStores(call, fa.Field, e.Caller.Func)
+			if !ok {
+				return nil, false
+			}
+			vals = append(vals, vs...)
+		}
+		return vals, true
+	}
 	call, ok := fa.X.(*ssa.Call)
 	if !ok {
 		return nil, false
 	}
+	return t.freshObjectFieldStores(call, fa.Field, fa.Parent())
+}
+
+// freshObjectFieldStores: what field #field of the fresh object returned by
+// call can hold inside fn: the constructor's initialisation and the stores
+// through that very pointer in fn.
+func (t *Tracer) freshObjectFieldStores(call *ssa.Call, field int, fn *ssa.Function) ([]ssa.Value, bool) {
+	fa := struct {
+		X     ssa.Value
+		Field int
+	}{call, field}
 	cal := call.Common().StaticCallee()
 	if cal == nil || cal.Blocks == nil {
 		return nil, false
@@ -670,7 +718,6 @@ func (t *Tracer) freshObjectStores(fa *ssa.FieldAddr) ([]ssa.Value, bool) {
 	// accept uses as FieldAddr base, method receiver of repo methods that do not
 	// store to the field, and nothing else is checked (conservative enough for
 	// configuration objects; the caller lists the origins in its evidence).
-	fn := fa.Parent()
 	ssau.ForEachInstr(fn, true, func(in ssa.Instruction) {
 		st, ok := in.(*ssa.Store)
 		if !ok {
@@ -681,4 +728,81 @@ func (t *Tracer) freshObjectStores(fa *ssa.FieldAddr) ([]ssa.Value, bool) {
 		}
 	})
 	return vals, true
+}
+
+// liveFieldStores: for a whole-struct load of a local struct variable that no
+// closure captures, the values of field #field that can still be there: the
+// store that dominates the load and is nearest to it kills every store that
+// dominates it in turn (flags.limit, _ = GetInt(..); ...; flags.limit = valid).
+func liveFieldStores(cell *ssa.Alloc, field int, load *ssa.UnOp) ([]ssa.Value, bool) {
+	if load.Parent() != cell.Parent() {
+		return nil, false
+	}
+	type st struct {
+		in  *ssa.Store
+		val ssa.Value
+	}
+	var all []st
+	for _, ref := range *cell.Referrers() {
+		switch u := ref.(type) {
+		case *ssa.FieldAddr:
+			if u.Field != field {
+				continue
+			}
+			for _, r2 := range *u.Referrers() {
+				switch x := r2.(type) {
+				case *ssa.Store:
+					if x.Addr == ssa.Value(u) {
+						all = append(all, st{x, x.Val})
+					}
+				case *ssa.UnOp:
+				default:
+					return nil, false // the field's address goes elsewhere
+				}
+			}
+		case *ssa.Store:
+			if u.Addr == ssa.Value(cell) {
+				all = append(all, st{u, wholeStruct{u.Val, field}})
+			} else {
+				return nil, false
+			}
+		case *ssa.UnOp, *ssa.DebugRef:
+		default:
+			return nil, false // captured, or its address passed on
+		}
+	}
+	dominates := func(a, b ssa.Instruction) bool {
+		if a.Block() == b.Block() {
+			for _, in := range a.Block().Instrs {
+				if in == a {
+					return true
+				}
+				if in == b {
+					return false
+				}
+			}
+		}
+		return a.Block().Dominates(b.Block())
+	}
+	var last *st
+	for i := range all {
+		if dominates(all[i].in, load) && (last == nil || dominates(last.in, all[i].in)) {
+			last = &all[i]
+		}
+	}
+	if last == nil {
+		return nil, false
+	}
+	var out []ssa.Value
+	for i := range all {
+		if &all[i] == last {
+			out = append(out, all[i].val)
+			continue
+		}
+		if dominates(all[i].in, last.in) {
+			continue // overwritten before the load on every path
+		}
+		out = append(out, all[i].val)
+	}
+	return out, true
 }
